@@ -3,6 +3,8 @@ import PtnModel.Driver.Bipartite
 import PtnModel.Driver.OpGraph
 import PtnModel.Driver.BondOps
 import PtnModel.Driver.MPS
+import PtnModel.Driver.Hist
+import PtnModel.Driver.Krylov
 /-!
 Line-protocol driver: one JSON object per input line (`{"op": name, ...}`), one JSON line out.
 Compiled to `.lake/build/bin/ptndriver`; imports nothing from Mathlib.
@@ -13,7 +15,9 @@ def handlers : List Handler := [
   Ptn.Drv.Bipartite.handle,
   Ptn.Drv.OpGraph.handle,
   Ptn.Drv.BondOps.handle,
-  Ptn.Drv.MPSDrv.handle
+  Ptn.Drv.MPSDrv.handle,
+  Ptn.Drv.HistDrv.handle,
+  Ptn.Drv.Krylov.handle
 ]
 
 def dispatch (line : String) : String :=
